@@ -657,10 +657,19 @@ class Lane:
                 self.violate("C12", "add-lost", f"{key}/{'at-ldm-position' if o.zone == 'near' else 'inside-area'}",
                              f"object #{label} ({TYPE_NAME.get(o.type)}, zone {o.zone}, validity "
                              f"{o.validity}s, {(o.expiry_ms - its_ms(now)) / 1000:.1f}s before expiry) is not returned by {via}")
+                if via.startswith("an unfiltered request") and o.zone != "near":
+                    # the audit is itself a data request (no filter, all types): in a C13 run a stored object missing from it is a
+                    # query defect in its own right (otherwise the taint below would silently blind every later C13 verdict on it)
+                    self.violate("C13", "result-set-differs", f"{self.backend}/nofilter/all-types/stored-object-missing",
+                                 f"an unfiltered request for all types after {opname} does not return object #{label} "
+                                 f"({TYPE_NAME.get(o.type)}), which is stored, valid and of a requested type")
                 o.tainted = True
         for label, n in seen.items():
             if n > 1:
                 self.sim.probe("duplicate-record-returned")
+                if not self.objs[label].tainted:
+                    # a map from identifier to object holds every object once
+                    self.violate("C12", "content-differs", key + "/object-returned-twice", f"object #{label} is returned {n} times by {via}")
 
     def _leaf(self, rec, name):
         if name.startswith("location."):
@@ -1036,6 +1045,9 @@ class Lane:
             if kind != "record":
                 continue                  # unknown / bare records are C12's business
             o = self.objs[label]
+            if label in got and not o.tainted:
+                # "exactly those stored objects": one stored object answered twice is not the set the statement describes
+                self.violate(prop, rule_set, key + "/object-returned-twice", f"{what}: object #{label} is contained more than once")
             got[label] = rec
             recs_known.append(rec)
             if o.tainted or self.status(o, now) == "no":
